@@ -303,3 +303,11 @@ Theorem values_single_tagged_spliced :
   = [ValuesModel.MObj 1; ValuesModel.MObj 2].
 Proof. exact ValuesProofs.values_single_tagged_spliced_lemma. Qed.
 Print Assumptions values_single_tagged_spliced.
+
+(** the multiple-values print mode of the trace correspondence is meaning-preserving under this model of values: a
+    call/cc receiver [(call-with-values (lambda () (call/cc ..)) (lambda vs (apply + vs)))] computes the sum of whatever
+    numbers a continuation procedure is called with — so a throw that passes numbers with sum v delivers the model's v *)
+Theorem mv_encoding_sound : forall vs : list nat,
+  ValuesProofs.sum_consumer (ValuesModel.cwv_args (ValuesModel.cont_deliver (map ValuesModel.MObj vs))) = list_sum vs.
+Proof. exact ValuesProofs.mv_encoding_sound_lemma. Qed.
+Print Assumptions mv_encoding_sound.
